@@ -12,8 +12,16 @@
 (* FORM_TYPE field, var = FT) carry sequences of values.  Strings are      *)
 (* atoms 1..n of a totally ordered alphabet (their order is the i;octet    *)
 (* order of the strings that lib/props/C20.py substitutes), 0 is the empty *)
-(* string.  The alphabet has no '<' and no '/': the XEP's own delimiter    *)
-(* weakness is excluded.                                                   *)
+(* string and may occur in EVERY role (category, type, lang, name,         *)
+(* feature, field name, field value) except the FORM_TYPE value.  The      *)
+(* model alphabet has no '<' and no '/' (the XEP's own delimiter weakness);*)
+(* lib/props/C20.py also substitutes strings that contain them, then the   *)
+(* "must change" clause is not judged.                                     *)
+(* A field is single-valued (text-single: exactly one value, and an EMPTY  *)
+(* one is not written on the wire at all -- XEP-0004 as QXmppDataForm      *)
+(* serializes it) or multi-valued (list-/jid-/text-multi: 0, 1, 2+ values, *)
+(* empty and repeated members allowed, every member is a <value/>).        *)
+(* The canonical string is defined over WHAT IS ON THE WIRE (WireVals).    *)
 (*                                                                         *)
 (* Canon is the XEP's generation method, step by step, producing the       *)
 (* string S as a sequence of tokens (atoms and the two delimiters).  TLC   *)
@@ -36,14 +44,14 @@ CONSTANTS Cats, Types, Langs, Names,     \* identity component atoms (Langs, Nam
 
 VARIABLES ids,      \* Seq of <<c, t, l, n>>
           feats,    \* Seq of atoms, repetitions allowed
-          form,     \* [on |-> BOOLEAN, fields |-> Seq of [var, vals]]; when on, exactly one field has var = FT
+          form,     \* [on |-> BOOLEAN, fields |-> Seq of [var, multi, vals]]; when on, exactly one field is FORM_TYPE
           canon,    \* the string S of XEP-0115 5.1 for the current info set (a function of the three above)
           hist
 
 mvars == <<ids, feats, form>>
 vars  == <<mvars, canon, hist>>
 
-FT == 0          \* the field name "FORM_TYPE"
+FT == 999        \* the field name "FORM_TYPE" (0 is the empty field name)
 LT == 1000       \* '<'
 SL == 1001       \* '/'
 NoForm == [on |-> FALSE, fields |-> <<>>]
@@ -53,6 +61,9 @@ IdPool == Cats \X Types \X Langs \X Names
 
 (* --- XEP-0115 5.1 --------------------------------------------------------- *)
 Tok(a) == IF a = 0 THEN <<>> ELSE <<a>>        \* the empty string contributes nothing to S
+
+\* the <value/> elements a field has on the wire: a single-valued field with an empty value has none
+WireVals(fl) == IF ~fl.multi /\ fl.vals = <<0>> THEN <<>> ELSE fl.vals
 
 RECURSIVE Flat(_)
 Flat(ss) == IF ss = <<>> THEN <<>> ELSE Head(ss) \o Flat(Tail(ss))
@@ -71,7 +82,7 @@ IdLess(x, y) ==
 IdTok(x) == Tok(x[1]) \o <<SL>> \o Tok(x[2]) \o <<SL>> \o Tok(x[3]) \o <<SL>> \o Tok(x[4]) \o <<LT>>   \* step 3
 
 FieldTok(fl) ==                                                          \* step 7.3
-    LET sv == SortSeq(fl.vals, LAMBDA a, b : a < b)
+    LET sv == SortSeq(WireVals(fl), LAMBDA a, b : a < b)       \* repeated members stay
     IN  Tok(fl.var) \o <<LT>> \o Flat([j \in 1..Len(sv) |-> Tok(sv[j]) \o <<LT>>])
 
 FormTok(fm) ==
@@ -90,8 +101,9 @@ Canon(i, f, fm) ==
 
 
 (* --- the info set as sets: what Canon must determine, and nothing else ----- *)
-FieldSets(fm) == {[var |-> fm.fields[j].var, vals |-> Range(fm.fields[j].vals)] : j \in DOMAIN fm.fields}
-AsSets(i, f, fm) == [ids |-> Range(i), feats |-> Range(f), on |-> fm.on, fields |-> FieldSets(fm)]
+\* identities and field values as bags (sorted sequences), features as a set; the field type is not hashed
+FieldSets(fm) == {[var |-> fm.fields[j].var, vals |-> SortSeq(WireVals(fm.fields[j]), LAMBDA a, b : a < b)] : j \in DOMAIN fm.fields}
+AsSets(i, f, fm) == [ids |-> SortSeq(i, IdLess), feats |-> Range(f), on |-> fm.on, fields |-> FieldSets(fm)]
 
 (* --- moves ------------------------------------------------------------------ *)
 \* every history record carries the kind of move t (neutral | change | emit) and the canonical string after it
@@ -102,8 +114,8 @@ RemoveAt(s, i) == SubSeq(s, 1, i - 1) \o SubSeq(s, i + 1, Len(s))
 SwapAt(s, i)   == [s EXCEPT ![i] = s[i + 1], ![i + 1] = s[i]]
 FieldVars      == {form.fields[j].var : j \in DOMAIN form.fields}
 
-AddIdentity(x) ==
-    /\ Len(ids) < MaxIds /\ x \notin Range(ids)
+AddIdentity(x) ==          \* also one that is there already (ill-formed per XEP-0115 5.4, hashed twice)
+    /\ Len(ids) < MaxIds
     /\ ids' = Append(ids, x)
     /\ UNCHANGED <<feats, form>>
     /\ Log([a |-> "AddIdentity", x |-> x, t |-> "change"])
@@ -113,7 +125,7 @@ RemoveIdentity(i) ==
     /\ UNCHANGED <<feats, form>>
     /\ Log([a |-> "RemoveIdentity", i |-> i, t |-> "change"])
 AlterIdentity(i, x) ==      \* one component of one identity gets another value
-    /\ i \in DOMAIN ids /\ x \notin Range(ids)
+    /\ i \in DOMAIN ids
     /\ Cardinality({p \in 1..4 : x[p] # ids[i][p]}) = 1
     /\ ids' = [ids EXCEPT ![i] = x]
     /\ UNCHANGED <<feats, form>>
@@ -152,7 +164,7 @@ SwapFeats(i) ==
 
 SetForm(ty) ==
     /\ ~form.on
-    /\ form' = [on |-> TRUE, fields |-> <<[var |-> FT, vals |-> <<ty>>]>>]
+    /\ form' = [on |-> TRUE, fields |-> <<[var |-> FT, multi |-> FALSE, vals |-> <<ty>>]>>]
     /\ UNCHANGED <<ids, feats>>
     /\ Log([a |-> "SetForm", v |-> ty, t |-> "change"])
 DropForm ==
@@ -160,11 +172,11 @@ DropForm ==
     /\ form' = NoForm
     /\ UNCHANGED <<ids, feats>>
     /\ Log([a |-> "DropForm", t |-> "change"])
-AddField(var, v) ==
+AddField(var, multi, v) ==
     /\ form.on /\ Len(form.fields) < MaxFields + 1 /\ var \notin FieldVars
-    /\ form' = [form EXCEPT !.fields = Append(@, [var |-> var, vals |-> <<v>>])]
+    /\ form' = [form EXCEPT !.fields = Append(@, [var |-> var, multi |-> multi, vals |-> <<v>>])]
     /\ UNCHANGED <<ids, feats>>
-    /\ Log([a |-> "AddField", var |-> var, v |-> v, t |-> "change"])
+    /\ Log([a |-> "AddField", var |-> var, m |-> multi, v |-> v, t |-> "change"])
 RemoveField(i) ==
     /\ form.on /\ i \in DOMAIN form.fields /\ form.fields[i].var # FT
     /\ form' = [form EXCEPT !.fields = RemoveAt(@, i)]
@@ -175,21 +187,28 @@ RenameField(i, var) ==
     /\ form' = [form EXCEPT !.fields[i].var = var]
     /\ UNCHANGED <<ids, feats>>
     /\ Log([a |-> "RenameField", i |-> i, var |-> var, t |-> "change"])
-AddValue(i, v) ==
-    /\ form.on /\ i \in DOMAIN form.fields /\ form.fields[i].var # FT
-    /\ Len(form.fields[i].vals) < MaxVals /\ v \notin Range(form.fields[i].vals)
+\* text-single <-> list-multi with the same one value: the type is not hashed -- unless the value is empty, which a
+\* multi-valued field writes as <value/> and a single-valued one does not write
+RetypeField(i) ==
+    /\ form.on /\ i \in DOMAIN form.fields /\ form.fields[i].var # FT /\ Len(form.fields[i].vals) = 1
+    /\ form' = [form EXCEPT !.fields[i].multi = ~@]
+    /\ UNCHANGED <<ids, feats>>
+    /\ Log([a |-> "RetypeField", i |-> i, t |-> IF form.fields[i].vals = <<0>> THEN "change" ELSE "neutral"])
+AddValue(i, v) ==           \* a member more, also an empty one and one that is there already
+    /\ form.on /\ i \in DOMAIN form.fields /\ form.fields[i].multi
+    /\ Len(form.fields[i].vals) < MaxVals
     /\ form' = [form EXCEPT !.fields[i].vals = Append(@, v)]
     /\ UNCHANGED <<ids, feats>>
     /\ Log([a |-> "AddValue", i |-> i, v |-> v, t |-> "change"])
-RemoveValue(i, j) ==
-    /\ form.on /\ i \in DOMAIN form.fields /\ form.fields[i].var # FT
-    /\ Len(form.fields[i].vals) > 1 /\ j \in DOMAIN form.fields[i].vals
+RemoveValue(i, j) ==        \* down to no value at all
+    /\ form.on /\ i \in DOMAIN form.fields /\ form.fields[i].multi
+    /\ j \in DOMAIN form.fields[i].vals
     /\ form' = [form EXCEPT !.fields[i].vals = RemoveAt(@, j)]
     /\ UNCHANGED <<ids, feats>>
     /\ Log([a |-> "RemoveValue", i |-> i, j |-> j, t |-> "change"])
 AlterValue(i, j, v) ==      \* includes the FORM_TYPE value
     /\ form.on /\ i \in DOMAIN form.fields /\ j \in DOMAIN form.fields[i].vals
-    /\ v \notin Range(form.fields[i].vals)
+    /\ v # form.fields[i].vals[j]
     /\ v \in (IF form.fields[i].var = FT THEN FTypes ELSE Vals)
     /\ form' = [form EXCEPT !.fields[i].vals[j] = v]
     /\ UNCHANGED <<ids, feats>>
@@ -223,9 +242,9 @@ Edit ==
     \/ \E i \in DOMAIN feats : DupFeature(i) \/ SwapFeats(i)
     \/ \E ty \in FTypes : SetForm(ty)
     \/ DropForm
-    \/ \E var \in Vars : \E v \in Vals : AddField(var, v)
+    \/ \E var \in Vars : \E v \in Vals : \E m \in BOOLEAN : AddField(var, m, v)
     \/ \E i \in DOMAIN form.fields :
-          \/ RemoveField(i) \/ SwapFields(i)
+          \/ RemoveField(i) \/ SwapFields(i) \/ RetypeField(i)
           \/ \E var \in Vars : RenameField(i, var)
           \/ \E v \in Vals : AddValue(i, v)
           \/ \E v \in Vals \cup FTypes : \E j \in 1..MaxVals : AlterValue(i, j, v)
@@ -248,12 +267,11 @@ ChangeChanges == [][P_Change(Last(hist').t, canon, canon')]_vars
 SetsFollow    == [][(canon' = canon) <=> (AsSets(ids', feats', form') = AsSets(ids, feats, form))]_vars
 
 TypeOK ==
-    /\ Range(ids) \subseteq IdPool /\ Len(ids) <= MaxIds /\ Cardinality(Range(ids)) = Len(ids)
+    /\ Range(ids) \subseteq IdPool /\ Len(ids) <= MaxIds
     /\ Range(feats) \subseteq Feats /\ Len(feats) <= MaxFeats
     /\ form.on => Cardinality({j \in DOMAIN form.fields : form.fields[j].var = FT}) = 1
     /\ ~form.on => form.fields = <<>>
-    /\ \A j \in DOMAIN form.fields : Len(form.fields[j].vals) >= 1
-                                     /\ Cardinality(Range(form.fields[j].vals)) = Len(form.fields[j].vals)
+    /\ \A j \in DOMAIN form.fields : ~form.fields[j].multi => Len(form.fields[j].vals) = 1
     /\ Cardinality(FieldVars) = Len(form.fields)
     /\ canon = Canon(ids, feats, form)
 
